@@ -4672,4 +4672,852 @@ theorem numerals_conservative' (tok : Text) (hu : ¬ US ∈ tok) (hf : noFs tok 
   rw [stripNum_eq_strip tok hf, dropUsGo_none false _ hu']
   simp only [strip_idem, if_true, parseInt_strip, isFloatLit_strip, beq_self_eq_true, Bool.true_and, and_self]
 
+/-! ## Part I (phase 5): the ARFF reader over CPython's numerals -/
+
+theorem parseKeysG_old (ks : List Text) : parseKeysG parseInt ks = parseKeys ks := by
+  induction ks with
+  | nil => rfl
+  | cons k ks ih => simp only [parseKeysG, parseKeys, ih]
+
+theorem arffSparseLineG_old (n : Nat) (line : Text) : arffSparseLineG parseInt n line = arffSparseLine n line := by
+  simp only [arffSparseLineG, arffSparseLine, parseKeysG_old]
+
+theorem encodeCellG_old (e : Enc) (v : Text) : encodeCellG isFloatLit e v = encodeCell e v := by
+  cases e <;> rfl
+
+theorem encodeRowG_old (es : List Enc) (vs : List Text) : encodeRowG isFloatLit es vs = encodeRow es vs := by
+  induction es generalizing vs with
+  | nil => cases vs <;> rfl
+  | cons e es ih =>
+    cases vs with
+    | nil => rfl
+    | cons v vs => simp only [encodeRowG, encodeRow, encodeCellG_old, ih]
+
+theorem denseRowsG_old (encs : List Enc) (n : Nat) (s : ALRF) (ls : List Text) :
+    denseRowsG isFloatLit encs n s ls = denseRows encs n s ls := by
+  induction ls generalizing s with
+  | nil => rfl
+  | cons l ls ih => simp only [denseRowsG, denseRows, encodeRowG_old, ih]
+
+theorem sparseItemsG_old (names : List Text) (encs : List Enc) (l : List (Int × Text)) :
+    sparseItemsG isFloatLit names encs l = sparseItems names encs l := by
+  induction l with
+  | nil => rfl
+  | cons p l ih => obtain ⟨k, v⟩ := p; simp only [sparseItemsG, sparseItems, encodeCellG_old, ih]
+
+theorem sparseRowsG_old (names : List Text) (encs : List Enc) (n : Nat) (ls : List Text) :
+    sparseRowsG parseInt isFloatLit names encs n ls = sparseRows names encs n ls := by
+  induction ls with
+  | nil => rfl
+  | cons l ls ih => simp only [sparseRowsG, sparseRows, arffSparseLineG_old, sparseItemsG_old, ih]
+
+theorem arffReadG_old' (lines : List Text) : arffReadG parseInt isFloatLit lines = arffRead lines := by
+  simp only [arffReadG, arffRead, arffReadNG, arffReadN, denseRowsG_old, sparseRowsG_old]
+
+/-! ### characters of the tokens come from the lines -/
+
+/-- every character is neither `_` nor `\x1c`–`\x1f` -/
+def Cl (t : Text) : Prop := ∀ c ∈ t, numClean c = true
+
+theorem Cl_iff (t : Text) : t.all numClean = true ↔ Cl t := by simp [Cl, List.all_eq_true]
+
+theorem Cl_nil : Cl [] := by intro c hc; cases hc
+
+theorem Cl_subset {a b : Text} (h : a ⊆ b) (hb : Cl b) : Cl a := fun c hc => hb c (h hc)
+
+theorem Cl_append {a b : Text} (ha : Cl a) (hb : Cl b) : Cl (a ++ b) := by
+  intro c hc; rcases List.mem_append.mp hc with h | h
+  · exact ha c h
+  · exact hb c h
+
+theorem Cl_cons {c : Nat} {a : Text} (hc : numClean c = true) (ha : Cl a) : Cl (c :: a) := by
+  intro x hx; rcases List.mem_cons.mp hx with rfl | h
+  · exact hc
+  · exact ha x h
+
+theorem Cl_tail {c : Nat} {a : Text} (h : Cl (c :: a)) : Cl a := fun x hx => h x (List.mem_cons_of_mem _ hx)
+
+theorem strip_subset (t : Text) : strip t ⊆ t := by
+  intro c hc
+  unfold strip at hc
+  have h1 := List.mem_reverse.mp hc
+  have h2 := (List.dropWhile_sublist _).subset h1
+  have h3 := List.mem_reverse.mp h2
+  exact (List.dropWhile_sublist _).subset h3
+
+theorem lstrip_subset (t : Text) : lstrip t ⊆ t := (List.dropWhile_sublist _).subset
+
+theorem rstrip_subset (t : Text) : rstrip t ⊆ t := by
+  intro c hc
+  unfold rstrip at hc
+  have h1 := List.mem_reverse.mp hc
+  exact List.mem_reverse.mp ((List.dropWhile_sublist _).subset h1)
+
+theorem stripBraces_subset (t : Text) : stripBraces t ⊆ t := by
+  intro c hc
+  unfold stripBraces at hc
+  have h1 := List.mem_reverse.mp hc
+  have h2 := (List.dropWhile_sublist _).subset h1
+  have h3 := List.mem_reverse.mp h2
+  exact (List.dropWhile_sublist _).subset h3
+
+theorem splitOnGo_clean (sep : Nat) (cur t : Text) (hc : Cl cur) (ht : Cl t) :
+    ∀ v ∈ splitOnGo sep cur t, Cl v := by
+  induction t generalizing cur with
+  | nil => intro v hv; simp only [splitOnGo, List.mem_singleton] at hv; exact hv ▸ hc
+  | cons c t ih =>
+    intro v hv
+    simp only [splitOnGo] at hv
+    split at hv
+    · rcases List.mem_cons.mp hv with rfl | h
+      · exact hc
+      · exact ih [] Cl_nil (Cl_tail ht) v h
+    · exact ih (cur ++ [c]) (Cl_append hc (Cl_cons (ht c (by simp)) Cl_nil)) (Cl_tail ht) v hv
+
+theorem splitOn_clean (sep : Nat) (t : Text) (ht : Cl t) : ∀ v ∈ splitOn sep t, Cl v :=
+  splitOnGo_clean sep [] t Cl_nil ht
+
+theorem sparseSplitGo_clean (cur : Text) (st : Nat) (t : Text) (hc : Cl cur) (ht : Cl t) :
+    ∀ v ∈ sparseSplitGo cur st t, Cl v := by
+  induction t generalizing cur st with
+  | nil =>
+    intro v hv
+    simp only [sparseSplitGo] at hv
+    split at hv <;> simp only [List.mem_singleton] at hv <;> subst hv
+    · exact hc
+    · exact Cl_nil
+  | cons c t ih =>
+    have ht' := Cl_tail ht
+    have hcc : Cl [c] := Cl_cons (ht c (by simp)) Cl_nil
+    intro v hv
+    simp only [sparseSplitGo] at hv
+    repeat' split at hv
+    all_goals first
+      | exact ih _ _ Cl_nil ht' v hv
+      | exact ih _ _ hcc ht' v hv
+      | exact ih _ _ (Cl_append hc hcc) ht' v hv
+      | (rcases List.mem_cons.mp hv with rfl | h
+         · first | exact hc | exact Cl_nil
+         · exact ih _ _ Cl_nil ht' v h)
+
+theorem sparseSplit_clean (t : Text) (ht : Cl t) : ∀ v ∈ sparseSplit t, Cl v :=
+  sparseSplitGo_clean [] 0 t Cl_nil ht
+
+/-! ### the csv machine adds only characters of the line (and `\n` after an escape character) -/
+
+def RC (r : CsvR) : Prop := Cl r.field ∧ ∀ f ∈ r.fields, Cl f
+
+theorem RC_reset : RC CsvR.reset := ⟨Cl_nil, by intro f hf; cases hf⟩
+
+theorem RC_saveField {r : CsvR} (h : RC r) (st : CsvSt) : RC (saveField r st) := by
+  refine ⟨Cl_nil, ?_⟩
+  intro f hf
+  simp only [saveField, List.mem_append, List.mem_singleton] at hf
+  rcases hf with hf | rfl
+  · exact h.2 f hf
+  · exact h.1
+
+theorem RC_addChar {r : CsvR} (h : RC r) {c : Nat} (hc : numClean c = true) (st : CsvSt) : RC (addChar r c st) :=
+  ⟨Cl_append h.1 (Cl_cons hc Cl_nil), h.2⟩
+
+theorem RC_goto {r : CsvR} (h : RC r) (st : CsvSt) : RC (goto r st) := h
+
+theorem csvStartField_clean (d : Dialect) (r : CsvR) (c : Option Nat) (hr : RC r)
+    (hc : ∀ ch, c = some ch → numClean ch = true) : RC (csvStartField d r c) := by
+  cases c with
+  | none => exact RC_saveField hr _
+  | some ch =>
+    have hch := hc ch rfl
+    simp only [csvStartField]
+    repeat' split
+    all_goals first | exact RC_saveField hr _ | exact RC_goto hr _ | exact RC_addChar hr hch _
+
+theorem csvInField_clean (d : Dialect) (r : CsvR) (c : Option Nat) (hr : RC r)
+    (hc : ∀ ch, c = some ch → numClean ch = true) : RC (csvInField d r c) := by
+  cases c with
+  | none => exact RC_saveField hr _
+  | some ch =>
+    have hch := hc ch rfl
+    simp only [csvInField]
+    repeat' split
+    all_goals first | exact RC_saveField hr _ | exact RC_goto hr _ | exact RC_addChar hr hch _
+
+theorem csvChar_clean (d : Dialect) (r : CsvR) (c : Option Nat) (hr : RC r)
+    (hc : ∀ ch, c = some ch → numClean ch = true) (r1 : CsvR) (h : csvChar d r c = .ok r1) : RC r1 := by
+  have h10 : numClean 10 = true := by decide
+  have hsf := csvStartField_clean d r c hr hc
+  have hif := csvInField_clean d r c hr hc
+  have hgd : numClean (c.getD 10) = true := by
+    cases c with
+    | none => exact h10
+    | some ch => exact hc ch rfl
+  unfold csvChar at h
+  repeat' split at h
+  all_goals first
+    | (cases h
+       first
+        | exact hr
+        | exact hsf
+        | exact hif
+        | exact RC_saveField hr _
+        | exact RC_goto hr _
+        | exact RC_addChar hr h10 _
+        | exact RC_addChar hr hgd _
+        | exact RC_addChar hr (hc _ (by assumption)) _)
+    | cases h
+
+theorem csvFeed_clean (d : Dialect) (r : CsvR) (t : Text) (hr : RC r) (ht : Cl t) (r1 : CsvR)
+    (h : csvFeed d r t = .ok r1) : RC r1 := by
+  induction t generalizing r with
+  | nil => simp only [csvFeed] at h; cases h; exact hr
+  | cons c t ih =>
+    simp only [csvFeed] at h
+    split at h
+    · cases h
+    · rename_i r2 h2
+      exact ih r2 (csvChar_clean d r (some c) hr (by intro ch hch; cases hch; exact ht c (by simp)) r2 h2) (Cl_tail ht) h
+
+theorem csvLine_clean (d : Dialect) (r : CsvR) (l : Text) (hr : RC r) (hl : Cl l) (r1 : CsvR)
+    (h : csvLine d r l = .ok r1) : RC r1 := by
+  simp only [csvLine] at h
+  split at h
+  · cases h
+  · rename_i r2 h2
+    exact csvChar_clean d r2 none (csvFeed_clean d r l hr hl r2 h2) (by intro ch hch; cases hch) r1 h
+
+theorem csvRecords_clean (d : Dialect) (r : CsvR) (ls : List Text) (hr : RC r) (hl : ∀ l ∈ ls, Cl l)
+    (rs : List (List Text)) (h : csvRecords d r ls = .ok rs) : ∀ rec ∈ rs, ∀ f ∈ rec, Cl f := by
+  induction ls generalizing r rs with
+  | nil =>
+    simp only [csvRecords] at h
+    split at h <;> cases h
+    · intro rec hrec f hf
+      simp only [List.mem_singleton] at hrec; subst hrec
+      rcases List.mem_append.mp hf with hf | hf
+      · exact hr.2 f hf
+      · simp only [List.mem_singleton] at hf; exact hf ▸ hr.1
+    · intro rec hrec; cases hrec
+  | cons l ls ih =>
+    simp only [csvRecords] at h
+    split at h
+    · cases h
+    · rename_i r1 h1
+      have hr1 := csvLine_clean d r l hr (hl l (by simp)) r1 h1
+      have hls : ∀ l ∈ ls, Cl l := fun x hx => hl x (by simp [hx])
+      split at h
+      · split at h
+        · cases h
+        · rename_i rs' h'
+          cases h
+          intro rec hrec
+          rcases List.mem_cons.mp hrec with rfl | hrec
+          · exact hr1.2
+          · exact ih CsvR.reset RC_reset hls rs' h' rec hrec
+      · exact ih r1 hr1 hls rs h
+
+theorem csvFirst_clean (d : Dialect) (line : Text) (hl : Cl line) (r : List Text)
+    (h : csvFirst d line = .ok r) : ∀ f ∈ r, Cl f := by
+  simp only [csvFirst] at h
+  split at h
+  · cases h
+  · cases h
+  · rename_i r0 rest h0
+    cases h
+    exact csvRecords_clean d CsvR.reset [line] RC_reset (by intro l hl'; simp only [List.mem_singleton] at hl'; exact hl' ▸ hl) _ h0 r (by simp)
+
+/-! ### the fallback parser and the complete dense line reader -/
+
+theorem filter_subset' (p : Nat → Bool) (t : Text) : t.filter p ⊆ t := List.filter_sublist.subset
+
+theorem tail_dropLast_subset (t : Text) : t.tail.dropLast ⊆ t :=
+  fun _ hc => (List.tail_sublist t).subset ((List.dropLast_sublist _).subset hc)
+
+theorem advItem_clean {item : Text} (h : Cl item) : Cl (((strip item).tail.dropLast).filter (· != BS)) :=
+  Cl_subset (fun _ hc => strip_subset _ (tail_dropLast_subset _ (filter_subset' _ _ hc))) h
+
+theorem advLoop_clean (acc : Option Text) (ps : List Text) (ha : ∀ a, acc = some a → Cl a) (hp : ∀ p ∈ ps, Cl p)
+    (out : List Text) (h : advLoop acc ps = .ok out) : ∀ v ∈ out, Cl v := by
+  induction ps generalizing acc out with
+  | nil =>
+    cases acc with
+    | none => simp only [advLoop] at h; cases h; intro v hv; cases hv
+    | some a => simp only [advLoop] at h; cases h
+  | cons p ps ih =>
+    have hps : ∀ q ∈ ps, Cl q := fun q hq => hp q (by simp [hq])
+    have hpp : Cl p := hp p (by simp)
+    cases acc with
+    | none =>
+      have hitem : Cl (lstrip p) := Cl_subset (lstrip_subset p) hpp
+      simp only [advLoop] at h
+      split at h
+      · cases h
+      · rename_i c rest hcr
+        have hsome : ∀ a, some (lstrip p) = some a → Cl a := by intro a ha'; cases ha'; exact hitem
+        have hnone : ∀ a, (none : Option Text) = some a → Cl a := by intro a ha'; cases ha'
+        repeat' split at h
+        all_goals first
+          | exact ih _ hsome hps out h
+          | (rename_i rest' hrest
+             cases h
+             intro v hv
+             rcases List.mem_cons.mp hv with rfl | hv
+             · first | exact advItem_clean hitem | exact Cl_subset (filter_subset' _ _) hitem
+             · exact ih none hnone hps rest' hrest v hv)
+          | cases h
+    | some item =>
+      have hitem1 : Cl (item ++ COMMA :: p) := Cl_append (ha item rfl) (Cl_cons (by decide) hpp)
+      have hsome : ∀ a, some (item ++ COMMA :: p) = some a → Cl a := by intro a ha'; cases ha'; exact hitem1
+      have hnone : ∀ a, (none : Option Text) = some a → Cl a := by intro a ha'; cases ha'
+      simp only [advLoop] at h
+      repeat' split at h
+      all_goals first
+        | exact ih _ hsome hps out h
+        | (rename_i rest' hrest
+           cases h
+           intro v hv
+           rcases List.mem_cons.mp hv with rfl | hv
+           · exact advItem_clean hitem1
+           · exact ih none hnone hps rest' hrest v hv)
+        | cases h
+
+theorem arffAdvanced_clean (n : Nat) (s : ALRF) (line : Text) (hl : Cl line) (s1 : ALRF) (raw : List Text)
+    (h : arffAdvanced n s line = .ok (s1, raw)) : ∀ v ∈ raw, Cl v := by
+  simp only [arffAdvanced] at h
+  split at h
+  · cases h
+  · rename_i parsed hp
+    split at h
+    · cases h
+      exact advLoop_clean none _ (by intro a ha; cases ha) (splitOn_clean _ line hl) _ hp
+    · cases h
+
+theorem arffSimpleF_clean (n : Nat) (s : ALRF) (line : Text) (hl : Cl line) (s1 : ALRF) (raw : List Text)
+    (h : arffSimpleF n s line = .ok (s1, raw)) : ∀ v ∈ raw, Cl v := by
+  simp only [arffSimpleF] at h
+  split at h
+  · exact arffAdvanced_clean n s line hl s1 raw h
+  · split at h
+    · cases h
+    · rename_i r hr
+      split at h
+      · cases h; exact csvFirst_clean _ line hl _ hr
+      · cases h
+
+theorem arffFirstF_clean (n : Nat) (line : Text) (hl : Cl line) (s1 : ALRF) (raw : List Text)
+    (h : arffFirstF n line = .ok (s1, raw)) : ∀ v ∈ raw, Cl v := by
+  simp only [arffFirstF] at h
+  repeat' split at h
+  all_goals first
+    | cases h
+    | exact arffAdvanced_clean n _ line hl s1 raw h
+    | exact arffSimpleF_clean n _ line hl s1 raw h
+
+theorem arffLineStepF_clean (n : Nat) (s : ALRF) (line : Text) (hl : Cl line) (s1 : ALRF) (raw : List Text)
+    (h : arffLineStepF n s line = .ok (s1, raw)) : ∀ v ∈ raw, Cl v := by
+  simp only [arffLineStepF] at h
+  repeat' split at h
+  · exact arffAdvanced_clean n s line hl s1 raw h
+  · exact arffSimpleF_clean n s line hl s1 raw h
+  · exact arffFirstF_clean n line hl s1 raw h
+
+/-! ### the reader depends on the numeral functions only through tokens made of the lines' characters -/
+
+theorem encodeCellG_congr (fl fl' : Text → Bool) (e : Enc) (v : Text) (h : fl v = fl' v) :
+    encodeCellG fl e v = encodeCellG fl' e v := by
+  cases e <;> simp only [encodeCellG, h]
+
+theorem encodeRowG_congr (fl fl' : Text → Bool) (hfl : ∀ t, Cl t → fl t = fl' t) (es : List Enc) (vs : List Text)
+    (hv : ∀ v ∈ vs, Cl v) : encodeRowG fl es vs = encodeRowG fl' es vs := by
+  induction es generalizing vs with
+  | nil => cases vs <;> rfl
+  | cons e es ih =>
+    cases vs with
+    | nil => rfl
+    | cons v vs =>
+      simp only [encodeRowG, encodeCellG_congr fl fl' e v (hfl v (hv v (by simp))),
+        ih vs (fun x hx => hv x (by simp [hx]))]
+
+theorem denseRowsG_congr (fl fl' : Text → Bool) (hfl : ∀ t, Cl t → fl t = fl' t) (encs : List Enc) (n : Nat)
+    (s : ALRF) (ls : List Text) (hl : ∀ l ∈ ls, Cl l) :
+    denseRowsG fl encs n s ls = denseRowsG fl' encs n s ls := by
+  induction ls generalizing s with
+  | nil => rfl
+  | cons l ls ih =>
+    have hls : ∀ x ∈ ls, Cl x := fun x hx => hl x (by simp [hx])
+    simp only [denseRowsG]
+    split
+    · exact ih s hls
+    · cases hstep : arffLineStepF n s l with
+      | error e => rfl
+      | ok p =>
+        obtain ⟨s1, raw⟩ := p
+        have hraw := arffLineStepF_clean n s l (hl l (by simp)) s1 raw hstep
+        simp only [encodeRowG_congr fl fl' hfl encs raw hraw, ih s1 hls]
+
+theorem parseKeysG_congr (pi pi' : Text → Option Int) (hpi : ∀ t, Cl t → pi t = pi' t) (ks : List Text)
+    (hk : ∀ k ∈ ks, Cl k) : parseKeysG pi ks = parseKeysG pi' ks := by
+  induction ks with
+  | nil => rfl
+  | cons k ks ih =>
+    simp only [parseKeysG, hpi k (hk k (by simp)), ih (fun x hx => hk x (by simp [hx]))]
+
+theorem evens_subset : ∀ l : List Text, evens l ⊆ l
+  | [] => by simp [evens]
+  | [x] => by simp [evens]
+  | x :: y :: r => by
+    intro v hv
+    simp only [evens, List.mem_cons] at hv ⊢
+    rcases hv with h | h
+    · exact Or.inl h
+    · exact Or.inr (Or.inr (evens_subset r h))
+
+theorem odds_subset : ∀ l : List Text, odds l ⊆ l
+  | [] => by simp [odds]
+  | [x] => by simp [odds]
+  | x :: y :: r => by
+    intro v hv
+    simp only [odds, List.mem_cons] at hv ⊢
+    rcases hv with h | h
+    · exact Or.inr (Or.inl h)
+    · exact Or.inr (Or.inr (odds_subset r h))
+
+theorem dictOf_vals (l : List (Int × Text)) : ∀ p ∈ dictOf l, p.2 ∈ l.map (·.2) := by
+  induction l with
+  | nil => intro p hp; cases hp
+  | cons kv r ih =>
+    obtain ⟨k, v⟩ := kv
+    intro p hp
+    simp only [dictOf] at hp
+    split at hp
+    · rename_i kv' hfind
+      rcases List.mem_cons.mp hp with rfl | hp
+      · have := ih kv' (List.mem_of_find?_eq_some hfind)
+        simp only [List.map_cons, List.mem_cons]; exact Or.inr this
+      · have := ih p (List.filter_sublist.subset hp)
+        simp only [List.map_cons, List.mem_cons]; exact Or.inr this
+    · rcases List.mem_cons.mp hp with rfl | hp
+      · simp
+      · have := ih p hp
+        simp only [List.map_cons, List.mem_cons]; exact Or.inr this
+
+theorem sparseTokens_clean (line : Text) (hl : Cl line) : ∀ v ∈ sparseSplit (stripBraces line), Cl v :=
+  sparseSplit_clean _ (Cl_subset (stripBraces_subset line) hl)
+
+theorem arffSparseLineG_congr (pi pi' : Text → Option Int) (hpi : ∀ t, Cl t → pi t = pi' t) (n : Nat) (line : Text)
+    (hl : Cl line) : arffSparseLineG pi n line = arffSparseLineG pi' n line := by
+  simp only [arffSparseLineG, parseKeysG_congr pi pi' hpi _ (fun k hk => sparseTokens_clean line hl k (evens_subset _ hk))]
+
+theorem arffSparseLineG_clean (pi : Text → Option Int) (n : Nat) (line : Text) (hl : Cl line)
+    (raw : List (Int × Text)) (h : arffSparseLineG pi n line = .ok raw) : ∀ p ∈ raw, Cl p.2 := by
+  simp only [arffSparseLineG] at h
+  split at h
+  · cases h; intro p hp; cases hp
+  · split at h
+    · cases h
+    · rename_i keys hkeys
+      split at h
+      · cases h
+      · cases h
+        intro p hp
+        have h1 := dictOf_vals _ p hp
+        obtain ⟨q, hq, hq2⟩ := List.mem_map.mp h1
+        have h2 : q.2 ∈ odds (sparseSplit (stripBraces line)) := (List.of_mem_zip (a := q.1) (b := q.2) hq).2
+        rw [← hq2]
+        exact sparseTokens_clean line hl _ (odds_subset _ h2)
+
+theorem sparseItemsG_congr (fl fl' : Text → Bool) (hfl : ∀ t, Cl t → fl t = fl' t) (names : List Text) (encs : List Enc)
+    (l : List (Int × Text)) (hv : ∀ p ∈ l, Cl p.2) :
+    sparseItemsG fl names encs l = sparseItemsG fl' names encs l := by
+  induction l with
+  | nil => rfl
+  | cons p l ih =>
+    obtain ⟨k, v⟩ := p
+    have ih' := ih (fun x hx => hv x (by simp [hx]))
+    have hvv : fl v = fl' v := hfl v (hv (k, v) (by simp))
+    simp only [sparseItemsG, ih']
+    split
+    · rw [encodeCellG_congr fl fl' _ v hvv]
+    · rfl
+
+theorem sparseRowsG_congr (pi pi' : Text → Option Int) (fl fl' : Text → Bool) (hpi : ∀ t, Cl t → pi t = pi' t)
+    (hfl : ∀ t, Cl t → fl t = fl' t) (names : List Text) (encs : List Enc) (n : Nat) (ls : List Text)
+    (hl : ∀ l ∈ ls, Cl l) : sparseRowsG pi fl names encs n ls = sparseRowsG pi' fl' names encs n ls := by
+  induction ls with
+  | nil => rfl
+  | cons l ls ih =>
+    have ih' := ih (fun x hx => hl x (by simp [hx]))
+    have hcl : Cl l := hl l (by simp)
+    simp only [sparseRowsG, ih', ← arffSparseLineG_congr pi pi' hpi n l hcl]
+    split
+    · rfl
+    · cases hline : arffSparseLineG pi n l with
+      | error e => rfl
+      | ok raw =>
+        have hraw := arffSparseLineG_clean pi n l hcl raw hline
+        have hz : Cl ZERO := by intro c hc; simp only [ZERO, List.mem_singleton] at hc; subst hc; decide
+        simp only
+        rw [sparseItemsG_congr fl fl' hfl names encs _ (by
+          intro p hp
+          rcases List.mem_append.mp hp with hp | hp
+          · exact hraw p hp
+          · obtain ⟨i, _, rfl⟩ := List.mem_map.mp hp
+            exact hz)]
+
+theorem arffReadNG_congr (pi pi' : Text → Option Int) (fl fl' : Text → Bool) (hpi : ∀ t, Cl t → pi t = pi' t)
+    (hfl : ∀ t, Cl t → fl t = fl' t) (ls : List Text) (hl : ∀ l ∈ ls, Cl l) :
+    arffReadNG pi fl ls = arffReadNG pi' fl' ls := by
+  have hdata : ∀ l ∈ (((ls.dropWhile (fun l => lowerAscii l ≠ kwData)).drop 1).dropWhile (fun l => l.head? = some PCT)), Cl l := by
+    intro l hm
+    exact hl l ((List.dropWhile_sublist _).subset ((List.drop_sublist _ _).subset ((List.dropWhile_sublist _).subset hm)))
+  simp only [arffReadNG]
+  split
+  · rfl
+  · rename_i first rest hd
+    have e1 := fun encs n s => denseRowsG_congr fl fl' hfl encs n s _ hdata
+    have e2 := fun names encs n => sparseRowsG_congr pi pi' fl fl' hpi hfl names encs n _ hdata
+    simp only [e1, e2]
+
+theorem arffNormalize_clean (lines : List Text) (h : ∀ l ∈ lines, Cl l) : ∀ l ∈ arffNormalize lines, Cl l := by
+  intro l hm
+  unfold arffNormalize at hm
+  have h1 := List.filter_sublist.subset hm
+  obtain ⟨l0, hl0, rfl⟩ := List.mem_map.mp h1
+  exact Cl_subset (strip_subset l0) (h l0 hl0)
+
+theorem arffReadG_congr' (pi pi' : Text → Option Int) (fl fl' : Text → Bool)
+    (hpi : ∀ t, t.all numClean = true → pi t = pi' t) (hfl : ∀ t, t.all numClean = true → fl t = fl' t)
+    (lines : List Text) (hl : linesNumClean lines = true) : arffReadG pi fl lines = arffReadG pi' fl' lines := by
+  unfold arffReadG
+  apply arffReadNG_congr pi pi' fl fl' (fun t ht => hpi t ((Cl_iff t).mpr ht)) (fun t ht => hfl t ((Cl_iff t).mpr ht))
+  apply arffNormalize_clean
+  intro l hm
+  unfold linesNumClean at hl
+  exact (Cl_iff l).mp (List.all_eq_true.mp hl l hm)
+
+theorem numClean_tok (t : Text) (h : t.all numClean = true) : ¬ US ∈ t ∧ noFs t = true := by
+  have hc := (Cl_iff t).mp h
+  constructor
+  · intro hm
+    have := hc US hm
+    revert this; decide
+  · unfold noFs
+    rw [List.all_eq_true]
+    intro c hm
+    have := hc c hm
+    unfold numClean at this
+    simp only [Bool.and_eq_true] at this
+    exact this.2
+
+theorem arffReadPy_conservative' (lines : List Text) (hl : linesNumClean lines = true) :
+    arffReadPy lines = arffRead lines := by
+  rw [← arffReadG_old' lines]
+  unfold arffReadPy
+  apply arffReadG_congr' _ _ _ _ _ _ lines hl
+  · intro t ht; exact (numerals_conservative' t (numClean_tok t ht).1 (numClean_tok t ht).2).1
+  · intro t ht; exact (numerals_conservative' t (numClean_tok t ht).1 (numClean_tok t ht).2).2
+
+/-! ## Part J (phase 5): the fallback parser on unquoted pieces, `_fallback_delim` undecided -/
+
+theorem advLoop_unquoted' (ps : List Text) (h : ps.all pieceUnquoted = true) : advLoop none ps = advUnquoted ps := by
+  induction ps with
+  | nil => simp [advLoop, advUnquoted]
+  | cons p ps ih =>
+    simp only [List.all_cons, Bool.and_eq_true] at h
+    have ih' := ih h.2
+    have hp := h.1
+    unfold pieceUnquoted at hp
+    simp only [advLoop]
+    cases hl : lstrip p with
+    | nil => simp [advUnquoted, hl]
+    | cons c rest =>
+      rw [hl] at hp
+      have hq : isQuoteCh c = false := by simpa using hp
+      simp only [hq, Bool.false_eq_true, if_false, ih']
+      unfold advUnquoted
+      by_cases hall : ps.all (fun p => lstrip p != []) = true
+      · simp [hall, hl, advClean]
+      · simp [hall, hl]
+
+theorem arffAdvanced_undecided' (n : Nat) (s : ALRF) (line : Text) (hs : s.fallback = none)
+    (h : (splitOn (fallbackDelim line) line).all pieceUnquoted = true) :
+    arffAdvanced n s line =
+      (match advUnquoted (splitOn (fallbackDelim line) line) with
+       | .error e => .error e
+       | .ok parsed =>
+         if parsed.length = n then .ok ({ s with advanced := true, fallback := some (fallbackDelim line) }, parsed)
+         else .error .cobaException) := by
+  unfold arffAdvanced
+  simp only [hs]
+  rw [← advLoop_unquoted' _ h]
+  rfl
+
+theorem innerTok_parts (v : Text) (h : innerTok v = true) :
+    (∃ c t, v = c :: t ∧ isPySpace c = false ∧ isQuoteCh c = false) ∧ (∀ c ∈ v, c ≠ COMMA ∧ c ≠ BS) := by
+  unfold innerTok at h
+  simp only [Bool.and_eq_true] at h
+  obtain ⟨hh, ha⟩ := h
+  constructor
+  · cases v with
+    | nil => simp at hh
+    | cons c t =>
+      simp only [Bool.and_eq_true, Bool.not_eq_true'] at hh
+      exact ⟨c, t, rfl, hh.1, hh.2⟩
+  · intro c hc
+    have := List.all_eq_true.mp ha c hc
+    simp only [Bool.not_eq_true', Bool.or_eq_false_iff, beq_eq_false_iff_ne] at this
+    exact this
+
+theorem innerTok_lstrip (v : Text) (h : innerTok v = true) : lstrip v = v := by
+  obtain ⟨⟨c, t, rfl, hs, _⟩, _⟩ := innerTok_parts v h
+  simp [lstrip, List.dropWhile, hs]
+
+theorem innerTok_clean (v : Text) (h : innerTok v = true) : advClean v = v := by
+  unfold advClean
+  rw [innerTok_lstrip v h, List.filter_eq_self]
+  intro c hc
+  simpa using ((innerTok_parts v h).2 c hc).2
+
+theorem innerTok_unquoted (v : Text) (h : innerTok v = true) : pieceUnquoted v = true := by
+  unfold pieceUnquoted
+  rw [innerTok_lstrip v h]
+  obtain ⟨⟨c, t, rfl, _, hq⟩, _⟩ := innerTok_parts v h
+  simp [hq]
+
+theorem innerTok_nonblank (v : Text) (h : innerTok v = true) : (lstrip v != []) = true := by
+  rw [innerTok_lstrip v h]
+  obtain ⟨⟨c, t, rfl, _, _⟩, _⟩ := innerTok_parts v h
+  simp
+
+theorem advUnquoted_inner (vs : List Text) (h : ∀ v ∈ vs, innerTok v = true) : advUnquoted vs = .ok vs := by
+  unfold advUnquoted
+  have h1 : vs.all (fun p => lstrip p != []) = true := List.all_eq_true.mpr (fun v hv => innerTok_nonblank v (h v hv))
+  have h2 : vs.map advClean = vs := by
+    conv => rhs; rw [← List.map_id vs]
+    exact List.map_congr_left (fun v hv => innerTok_clean v (h v hv))
+  simp [h1, h2]
+
+theorem mem_splitOnGo_piece (sep : Nat) (cur t : Text) (c : Nat) (hc : c ∈ cur ∨ c ∈ t) (hne : c ≠ sep) :
+    ∃ p ∈ splitOnGo sep cur t, c ∈ p := by
+  induction t generalizing cur with
+  | nil =>
+    rcases hc with hc | hc
+    · exact ⟨cur, by simp [splitOnGo], hc⟩
+    · cases hc
+  | cons a t ih =>
+    simp only [splitOnGo]
+    split
+    · rename_i ha
+      rcases hc with hc | hc
+      · exact ⟨cur, by simp, hc⟩
+      · rcases List.mem_cons.mp hc with rfl | hc
+        · exact absurd ha hne
+        · obtain ⟨p, hp, hcp⟩ := ih [] (Or.inr hc)
+          exact ⟨p, by simp [hp], hcp⟩
+    · apply ih
+      rcases hc with hc | hc
+      · exact Or.inl (by simp [hc])
+      · rcases List.mem_cons.mp hc with rfl | hc
+        · exact Or.inl (by simp)
+        · exact Or.inr hc
+
+theorem splitOnGo_length_pos (sep : Nat) (cur t : Text) : 1 ≤ (splitOnGo sep cur t).length := by
+  induction t generalizing cur with
+  | nil => simp [splitOnGo]
+  | cons a t ih =>
+    simp only [splitOnGo]
+    split
+    · simp
+    · exact ih _
+
+theorem splitOnGo_length_ge (sep : Nat) (cur t : Text) (h : sep ∈ t) : 2 ≤ (splitOnGo sep cur t).length := by
+  induction t generalizing cur with
+  | nil => cases h
+  | cons a t ih =>
+    simp only [splitOnGo]
+    split
+    · have := splitOnGo_length_pos sep [] t
+      simp only [List.length_cons]; omega
+    · rename_i ha
+      rcases List.mem_cons.mp h with rfl | h
+      · exact absurd rfl ha
+      · exact ih _ h
+
+theorem splitOn_no_sep (sep : Nat) (t : Text) (h : ¬ sep ∈ t) : splitOn sep t = [t] := by
+  have := splitOnGo_tok sep [] t [] (fun c hc hcs => h (hcs ▸ hc))
+  simpa [splitOn, splitOnGo] using this
+
+theorem mem_lstrip_of_not_space (p : Text) (c : Nat) (hc : c ∈ p) (hs : isPySpace c = false) : c ∈ lstrip p := by
+  induction p with
+  | nil => cases hc
+  | cons a p ih =>
+    unfold lstrip
+    simp only [List.dropWhile]
+    cases ha : isPySpace a
+    · simpa using hc
+    · rcases List.mem_cons.mp hc with rfl | hc
+      · rw [hs] at ha; cases ha
+      · exact ih hc
+
+theorem comma_mem_join (v1 v2 : Text) (r : List Text) : COMMA ∈ joinWith COMMA (v1 :: v2 :: r) := by
+  simp [joinWith]
+
+theorem fallback_undecided_iff' (vs : List Text) (hne : vs ≠ []) (h : ∀ v ∈ vs, innerTok v = true)
+    (s : ALRF) (hs : s.fallback = none)
+    (hq : (splitOn TAB (joinWith COMMA vs)).all pieceUnquoted = true) :
+    (arffAdvanced vs.length s (joinWith COMMA vs)).map (·.2) = .ok vs ↔
+      (¬ TAB ∈ joinWith COMMA vs ∨ (splitOn TAB (joinWith COMMA vs)).length < vs.length) := by
+  have hcomma : splitOn COMMA (joinWith COMMA vs) = vs :=
+    splitOn_join COMMA vs hne (fun t ht c hc => ((innerTok_parts t (h t ht)).2 c hc).1)
+  have hvsq : vs.all pieceUnquoted = true := List.all_eq_true.mpr (fun v hv => innerTok_unquoted v (h v hv))
+  -- the comma choice reads the row back
+  have hC : fallbackDelim (joinWith COMMA vs) = COMMA →
+      (arffAdvanced vs.length s (joinWith COMMA vs)).map (·.2) = .ok vs := by
+    intro hfd
+    rw [arffAdvanced_undecided' _ s _ hs (by rw [hfd, hcomma]; exact hvsq), hfd, hcomma, advUnquoted_inner vs h]
+    simp [Except.map]
+  constructor
+  · intro hok
+    by_cases hfd : fallbackDelim (joinWith COMMA vs) = COMMA
+    · right
+      unfold fallbackDelim at hfd
+      rw [hcomma] at hfd
+      by_cases hlt : vs.length > (splitOn TAB (joinWith COMMA vs)).length
+      · exact hlt
+      · rw [if_neg hlt] at hfd; exact absurd hfd (by decide)
+    · have hfd' : fallbackDelim (joinWith COMMA vs) = TAB := by
+        unfold fallbackDelim at hfd ⊢
+        split
+        · rename_i hgt; exact absurd (if_pos hgt) hfd
+        · rfl
+      left
+      intro htab
+      rw [arffAdvanced_undecided' _ s _ hs (by rw [hfd']; exact hq), hfd'] at hok
+      by_cases hall : ((splitOn TAB (joinWith COMMA vs)).all (fun p => lstrip p != [])) = true
+      · have hadv : advUnquoted (splitOn TAB (joinWith COMMA vs)) = .ok ((splitOn TAB (joinWith COMMA vs)).map advClean) := by
+          simp [advUnquoted, hall]
+        rw [hadv] at hok
+        by_cases hlen : ((splitOn TAB (joinWith COMMA vs)).map advClean).length = vs.length
+        · simp only [hlen, if_true, Except.map] at hok
+          injection hok with hok
+          cases vs with
+          | nil => exact hne rfl
+          | cons v1 r =>
+            cases r with
+            | nil =>
+              have h2 := splitOnGo_length_ge TAB [] _ htab
+              simp only [List.length_map, List.length_cons, List.length_nil] at hlen
+              unfold splitOn at hlen
+              omega
+            | cons v2 r =>
+              obtain ⟨p, hp, hcp⟩ := mem_splitOnGo_piece TAB [] _ COMMA (Or.inr (comma_mem_join v1 v2 r)) (by decide)
+              have hmem : advClean p ∈ v1 :: v2 :: r := by
+                rw [← hok]; exact List.mem_map.mpr ⟨p, hp, rfl⟩
+              have hcc : COMMA ∈ advClean p := by
+                unfold advClean
+                exact List.mem_filter.mpr ⟨mem_lstrip_of_not_space p COMMA hcp (by decide), by decide⟩
+              exact ((innerTok_parts _ (h _ hmem)).2 COMMA hcc).1 rfl
+        · simp only [] at hok
+          rw [if_neg hlen] at hok
+          simp [Except.map] at hok
+      · have hadv : advUnquoted (splitOn TAB (joinWith COMMA vs)) = .error .indexError := by
+          simp [advUnquoted, hall]
+        rw [hadv] at hok
+        simp [Except.map] at hok
+  · intro hcond
+    by_cases hfd : fallbackDelim (joinWith COMMA vs) = COMMA
+    · exact hC hfd
+    · -- the tab choice: then there is no tab and one value
+      have hnlt : ¬ vs.length > (splitOn TAB (joinWith COMMA vs)).length := by
+        intro hgt
+        apply hfd
+        unfold fallbackDelim
+        rw [hcomma]; simp [hgt]
+      rcases hcond with hnt | hlt
+      · have hone := splitOn_no_sep TAB _ hnt
+        rw [hone] at hnlt
+        simp only [List.length_singleton] at hnlt
+        cases vs with
+        | nil => exact absurd rfl hne
+        | cons v1 r =>
+          cases r with
+          | nil =>
+            have hfd' : fallbackDelim (joinWith COMMA [v1]) = TAB := by
+              unfold fallbackDelim; rw [hcomma, hone]; simp
+            rw [arffAdvanced_undecided' _ s _ hs (by rw [hfd']; exact hq), hfd', hone]
+            have : joinWith COMMA [v1] = v1 := rfl
+            rw [this, advUnquoted_inner [v1] h]
+            simp [Except.map]
+          | cons v2 r => simp only [List.length_cons] at hnlt; omega
+      · exact absurd hlt hnlt
+
+/-! ## Part K (phase 5): LibSVM / Manik with CPython's numerals -/
+
+theorem parseIntPy_digits (d : Text) (hne : d ≠ []) (h : d.all isDigit = true) : parseIntPy d = some (digitsVal d) := by
+  have hd : ∀ c ∈ d, isDigit c = true := List.all_eq_true.mp h
+  have hu : ¬ US ∈ d := by
+    intro hm
+    have := hd US hm
+    revert this; decide
+  have hf : noFs d = true := by
+    unfold noFs
+    rw [List.all_eq_true]
+    intro c hc
+    have := hd c hc
+    unfold isDigit at this
+    simp only [Bool.and_eq_true, decide_eq_true_eq] at this
+    simp only [Bool.not_eq_true', Bool.and_eq_false_iff, decide_eq_false_iff_not]
+    omega
+  rw [(numerals_conservative' d hu hf).1, parseInt_digits d hne h]
+
+theorem parseKeysG_digits (ks : List Text) (h : ∀ k ∈ ks, k ≠ [] ∧ k.all isDigit = true) :
+    parseKeysG parseIntPy ks = .ok (ks.map digitsVal) := by
+  induction ks with
+  | nil => rfl
+  | cons k ks ih =>
+    simp only [parseKeysG, parseIntPy_digits k (h k (by simp)).1 (h k (by simp)).2,
+      ih (fun x hx => h x (by simp [hx])), List.map_cons]
+
+theorem svmRowPy_written (r : SvmRow) (h : svmNumOk r = true) : svmRowPy r = .ok (svmRowOutPy r) := by
+  unfold svmNumOk at h
+  have hall := List.all_eq_true.mp h
+  have hk : ∀ k ∈ r.feats.map (·.1), k ≠ [] ∧ k.all isDigit = true := by
+    intro k hk
+    obtain ⟨kv, hkv, rfl⟩ := List.mem_map.mp hk
+    have := hall kv hkv
+    simp only [Bool.and_eq_true, decide_eq_true_eq] at this
+    exact ⟨this.1.1, this.1.2⟩
+  have hv : r.feats.all (fun kv => isFloatLitPy kv.2) = true := by
+    rw [List.all_eq_true]
+    intro kv hkv
+    have := hall kv hkv
+    simp only [Bool.and_eq_true] at this
+    exact this.2
+  unfold svmRowPy svmRowOutPy
+  rw [parseKeysG_digits _ hk]
+  simp only [hv, if_true]
+  congr 2
+  rw [List.map_map, List.zip_map', ]
+  rfl
+
+theorem svmRowsPy_written (rows : List SvmRow) (h : ∀ r ∈ rows, svmNumOk r = true) :
+    svmRowsPy rows = .ok (rows.map svmRowOutPy) := by
+  induction rows with
+  | nil => rfl
+  | cons r rows ih =>
+    simp only [svmRowsPy, svmRowPy_written r (h r (by simp)), ih (fun x hx => h x (by simp [hx])), List.map_cons]
+
+theorem libsvm_roundtrip_py' (rows : List SvmRow) (hok : ∀ r ∈ rows, svmRowOk r = true)
+    (hnum : ∀ r ∈ rows, svmNumOk r = true) :
+    libsvmReadPy (rows.map svmWriteRow) = .ok (rows.map svmRowOutPy) := by
+  unfold libsvmReadPy
+  rw [libsvm_roundtrip' rows hok]
+  exact svmRowsPy_written rows hnum
+
+theorem manik_roundtrip_py' (first : Text) (rows : List SvmRow) (hok : ∀ r ∈ rows, svmRowOk r = true)
+    (hnum : ∀ r ∈ rows, svmNumOk r = true) :
+    manikReadPy (first :: rows.map svmWriteRow) = .ok (rows.map svmRowOutPy) := by
+  unfold manikReadPy
+  simp only [List.drop_succ_cons, List.drop_zero]
+  exact libsvm_roundtrip_py' rows hok hnum
+
 end Coba.C12
